@@ -192,16 +192,16 @@ def cmd_build(args):
 # ====================================================================== checks
 PROPS = {
     # prop: (level, [(variant, share_of_budget)], technique, level_text)
-    "C01": ("exploration", [("plain", 1.0)]),
-    "C02": ("exploration", [("plain", 1.0)]),
-    "C03": ("exploration", [("plain", 1.0)]),
-    "C04": ("exploration", [("plain", 1.0)]),
-    "C05": ("exploration", [("plain", 1.0)]),
-    "C06": ("exploration", [("plain", 1.0)]),
+    "C01": ("exploration", [("plain", 0.75), ("asan", 0.25)]),
+    "C02": ("exploration", [("plain", 0.75), ("asan", 0.25)]),
+    "C03": ("exploration", [("plain", 0.75), ("asan", 0.25)]),
+    "C04": ("exploration", [("plain", 0.75), ("asan", 0.25)]),
+    "C05": ("exploration", [("plain", 0.75), ("asan", 0.25)]),
+    "C06": ("exploration", [("plain", 0.75), ("asan", 0.25)]),
     "C07": ("exploration", [("plain", 0.6), ("asan", 0.4)]),
-    "C08": ("exploration", [("plain", 1.0)]),
-    "C09": ("exploration", [("plain", 1.0)]),
-    "C10": ("exploration", [("plain", 1.0)]),
+    "C08": ("exploration", [("plain", 0.75), ("asan", 0.25)]),
+    "C09": ("exploration", [("plain", 0.75), ("asan", 0.25)]),
+    "C10": ("exploration", [("plain", 0.75), ("asan", 0.25)]),
     "C11": ("exploration", [("asan", 1.0)]),
     "C12": ("exploration", [("asan", 0.6), ("plain", 0.4)]),
     "C13": ("exploration", [("tsan", 0.5), ("asan", 0.5)]),
